@@ -47,11 +47,14 @@ CLAIMS = {
         text=('The operator table (precedence, right-associative operators, binary-operator test) is regenerated from parser/token.py on every '
               'run and proved equal to the documented levels: ^ (right to left) above * / % above + - above comparisons above `and` above `or`, '
               'all others left to right; integer arithmetic, comparisons, division by zero, truthiness of numbers, the leading minus and the '
-              'result set of randint vs randrange are stated on the shared arithmetic. Grouping by the parser and equality of the value in '
-              'every value position are decided per run: expression trees of depth <= 4 with minimal/redundant parentheses in every position '
-              'are compiled by the real parser and by the tree-directed compiler model (must agree instruction for instruction) and run '
-              'against the reference semantics; built-in sweeps; [random a b] with the library choice forced to its extremes.'),
-        note=COMMON_NOTE + 'Partial: the theorem that the precedence-climbing parser returns the tree of every rendered expression (parse_render) and the stack-machine lemma (postfix_eval) are not proved yet; libm built-ins and float ** are outside the model.',
+              'result set of randint vs randrange are stated on the shared arithmetic. The stack-machine lemma is proved for every call-free numeric '
+              'expression tree of any size (Lang/ExprCompile.v): the emitted postfix code, wherever it sits and in whatever state, runs silently, '
+              'changes only the evaluation stack and the pc and pushes the value of the tree, which is also the value the reference semantics '
+              'computes. Grouping by the parser and equality of the value in every value position are decided per run: expression trees of depth '
+              '<= 4 with minimal/redundant parentheses in every position are compiled by the real parser and by the tree-directed compiler model '
+              '(must agree instruction for instruction) and run against the reference semantics; built-in sweeps; [random a b] with the library '
+              'choice forced to its extremes.'),
+        note=COMMON_NOTE + 'Partial: the theorem that the precedence-climbing parser returns the tree of every rendered expression (parse_render) is not proved: that link is the per-run compile correspondence; expressions containing calls are outside the stack-machine lemma; libm built-ins and float ** are outside the model.',
         technique='Coq lemmas over the regenerated operator table and the shared arithmetic; correspondence (compile) and oracle (reference semantics) runs on generated trees',
         design='DESIGN.md 7 C02'),
     'C03': dict(
